@@ -17,7 +17,24 @@ from pv import core
 from pv.core import hx
 from pv.lib_buffile import ALPHA_BIN, ALPHA_TXT, rand_bytes, op_token, apply_op, classify_ioerror
 
-MODES = ["r", "rb", "w", "wb", "r+", "rb+", "w+b", "a", "ab", "a+", "a+b", "r", "rb", "r+b", "wb"]
+MODES = ["r", "rb", "w", "wb", "r+", "rb+", "w+b", "a", "ab", "a+", "a+b", "r", "rb", "r+b", "wb",
+         "rbU", "rU", "rbU", "r+bU", "Urb"]
+ALPHA_U = b"\r\r\n\n\r\nab\n\rz"
+
+
+def line_only(p):
+    """every read-type call is a whole-line call without a size limit (readline()/next/list(f)/readlines)"""
+    for k, a in p["ops"]:
+        if k in ("r", "r0", "ri"):
+            return False
+        if k == "l" and a is not None and a >= 0:
+            return False
+    return True
+
+
+def translate_newlines(data):
+    return data.replace(b"\r\n", b"\n").replace(b"\r", b"\n")
+
 
 
 def gen_program(rng, big=False):
@@ -29,7 +46,11 @@ def gen_program(rng, big=False):
     n = rng.choice([0, 1, 2, 5, 20, 60, rng.randrange(0, 300)])
     if big:
         n = rng.randrange(8000, 26000)
-    if rng.random() < 0.25:  # few or no line ends: exercises the size limits
+    univ = "U" in mode
+    whole_lines = univ and rng.random() < 0.7
+    if univ:
+        alpha = ALPHA_U
+    elif rng.random() < 0.25:  # few or no line ends: exercises the size limits
         alpha = bytes(c for c in alpha if c != 10) + b"\n"[: rng.randrange(2)] or b"a"
     inp = rand_bytes(rng, n, alpha)
     style = rng.random()
@@ -41,7 +62,11 @@ def gen_program(rng, big=False):
     ops = []
     for _ in range(rng.randrange(1, 26)):
         pool = ["t"]
-        if can_read or rng.random() < 0.08:
+        if whole_lines:
+            pool += ["lw", "lw", "lw", "n", "n", "Lw"]
+            if rng.random() < 0.15:
+                pool += ["i"]
+        elif can_read or rng.random() < 0.08:
             pool += ["r", "r", "l", "l", "l", "n", "ri", "L", "rall"]
             if rng.random() < 0.15:
                 pool += ["i"]
@@ -55,6 +80,10 @@ def gen_program(rng, big=False):
             small = rng.choice([small, rng.randrange(0, 20000)])
         if k == "r":
             ops.append(("r", small))
+        elif k == "lw":
+            ops.append(rng.choice([("l", None), ("l0", None), ("l", -1)]))
+        elif k == "Lw":
+            ops.append(rng.choice([("L", None), ("L0", None), ("L", small)]))
         elif k == "rall":
             ops.append(rng.choice([("r", None), ("r0", None), ("r", -1), ("r", -rng.randrange(1, 9))]))
         elif k == "ri":
@@ -73,6 +102,20 @@ def gen_program(rng, big=False):
         else:
             ops.append((k, None))
     return {"mode": mode, "bufsize": bufsize, "dflt": dflt, "inp": inp, "rg": rg, "wg": wg, "eofs": eofs, "ops": ops}
+
+
+def directed_u():
+    """Fixed universal-newline cases: a bare CR as the last byte of a chunk, the next chunk starting with LF /
+    not with LF, empty lines (LF LF, CRLF LF, CR CR) later in the stream; via readline, next, list, readlines."""
+    out = []
+    streams = [(b"one\rtwo\n\nthree\n", [3]), (b"one\r\ntwo\n\nthree", [3, 0]), (b"a\rb\r\n\nc\r\r\nd\r", [1, 1, 2, 0, 0, 3]),
+               (b"x\r", [1]), (b"\r\n\r\n\n\r", [0, 0, 0, 0, 0, 0]), (b"one\rtwo\r\n\nthree\n", [3, 4, 0])]
+    for inp, rg in streams:
+        for mode in ("rbU", "rU"):
+            for ops in ([("l0", None)] * 6, [("n", None)] * 6, [("i", None)], [("L0", None)], [("l", None), ("L", 3), ("i", None)]):
+                out.append({"mode": mode, "bufsize": 0, "dflt": 8192, "inp": inp, "rg": list(rg), "wg": [], "eofs": [],
+                            "ops": list(ops)})
+    return out
 
 
 def request_line(p):
@@ -117,15 +160,26 @@ def make_file(p):
 
 
 def state_line(f, left):
-    return " | out=%s pos=%d realpos=%d rbuf=%s wbuf=%s closed=%d left=%d" % (
-        hx(bytes(f.out)), f._pos, f._realpos, hx(f._rbuffer), hx(f._wbuffer.getvalue()), 1 if f._closed else 0, left)
+    nl = f.newlines
+    nl = "-" if nl is None else hx(nl) if isinstance(nl, bytes) else ",".join(hx(x) for x in nl)
+    return " | out=%s pos=%d realpos=%d rbuf=%s wbuf=%s closed=%d left=%d atcr=%d nl=%s" % (
+        hx(bytes(f.out)), f._pos, f._realpos, hx(f._rbuffer), hx(f._wbuffer.getvalue()), 1 if f._closed else 0, left,
+        1 if f._at_trailing_cr else 0, nl)
 
 
 class RefCheck:
     """The property evaluated directly: reads against io.BytesIO, writes against the sent-bytes laws."""
 
     def __init__(self, p, get_out):
-        self.ref = io.BytesIO(p["inp"])
+        # universal-newline mode: whole-line calls must return the lines of the stream with CRLF / CR translated
+        # to LF, however the stream was chunked; other U-mode programs (sizes, raw read()) are tied to the model only
+        self.univ = "U" in p["mode"]
+        if not self.univ:
+            self.ref = io.BytesIO(p["inp"])
+        elif line_only(p):
+            self.ref = io.BytesIO(translate_newlines(p["inp"]))
+        else:
+            self.ref = None
         self.sent = b""
         self.get_out = get_out
         self.bufsize = p["bufsize"]
@@ -136,7 +190,9 @@ class RefCheck:
         ref = self.ref
         if tok.startswith("E:"):
             return
-        if k in ("r", "r0", "ri"):
+        if ref is None and k in ("r", "r0", "ri", "l", "l0", "n", "i", "L", "L0"):
+            pass
+        elif k in ("r", "r0", "ri"):
             want = ref.read(a if k != "r0" else None)
             if tok != "b:" + hx(want):
                 self.bad.append(("read:read(%s)" % ("n" if (a is not None and a >= 0) else "all"), op, tok, hx(want)))
@@ -300,14 +356,17 @@ def run(ctx):
     ctx.rule = ("random programs (1-25 ops of read(n)/read()/readline(size)/readlines(hint)/next/list(f)/readinto/"
                 "write(bytes|str)/writelines/flush/close/tell) over random streams of LF/CR/NUL/0xff/letters, "
                 "bufsize in {-1,0,1,2..65536}, binary and text modes, r/w/a/+ flags, _DEFAULT_BUFSIZE in "
-                "{8192,1,2,7,64}, PRNG short-read and short-write grants, three EOF signalling styles. "
+                "{8192,1,2,7,64}, PRNG short-read and short-write grants, three EOF signalling styles; universal-newline "
+                "('U') modes over CR/CRLF/LF-heavy streams, 70% of them whole-line programs, plus a directed corpus of "
+                "CR-at-chunk-end cases. "
                 "distinct = distinct request lines; non-trivial = at least one read-type or write op succeeded")
     ctx.trust("UTF-8 decode of text-mode readline results is CPython's (text-mode streams are ASCII; model works on bytes)",
-              "universal-newline mode ('U') is outside the model and the claim")
+              "universal-newline mode ('U'): modelled (PV/Model/BufFileU.lean) and tied; reference for whole-line calls = "
+              "the stream with CRLF/CR translated to LF, split at LF")
     ctx.build()
     rng = ctx.rng
     n = 40000 if ctx.thorough else 4000
-    progs = [gen_program(rng, big=(i % 80 == 79)) for i in range(n)]
+    progs = directed_u() + [gen_program(rng, big=(i % 80 == 79)) for i in range(n)]
     reqs = [request_line(p) for p in progs]
     replies = ctx.driver("C42", reqs)
     for i, p in enumerate(progs):
@@ -318,6 +377,8 @@ def run(ctx):
         nontriv = any(t.startswith(("b:", "ls:", "ok")) and o[0] not in ("t", "f", "c") for t, o in zip(toks, p["ops"]))
         ctx.case(reqs[i], nontriv)
         ctx.dist("mode:" + ("binary" if "b" in p["mode"] else "text"))
+        if "U" in p["mode"]:
+            ctx.dist("universal-newline:" + ("whole-line calls (chunk-independence oracle)" if line_only(p) else "mixed (model only)"))
         ctx.dist("buffering:" + ("unbuffered" if p["bufsize"] <= 0 else "line" if p["bufsize"] == 1 else "sized"))
         for o, t in zip(p["ops"], toks):
             ctx.dist("op:%s:%s" % (o[0], "err" if t[:2] in ("E:", "X:") else "ok"))
@@ -329,7 +390,8 @@ def run(ctx):
             if t.startswith("X:"):
                 ctx.fail("unexpected-exception:" + t[2:], {"program": reqs[i], "op": op_token(o)}, t)
         for sig, op, got, want in check.bad:
-            ctx.fail(sig, {"program": reqs[i], "op": op_token(op)}, "real %s, reference %s" % (got, want))
+            ctx.fail(("universal-newline:" if "U" in p["mode"] else "") + sig,
+                     {"program": reqs[i], "op": op_token(op)}, "real %s, reference %s" % (got, want))
         # closing the file must deliver everything that was written
         if not f._closed:
             try:
@@ -361,11 +423,16 @@ META = {
               "BufferedFile subclass with PRNG short reads/writes and three EOF styles; thorough tier also a real "
               "ChannelFile over a real Transport/Channel pair with recorded chunking."),
     "note": ("Binary and text mode (text mode = same bytes, readline result decoded by CPython; text-mode test "
-             "streams are ASCII). NOT covered: universal-newline mode 'U' (CR/CRLF translation, newlines attribute) — "
-             "neither modelled nor claimed; the seekable-file branches added to file.py for C27 (flush before read, "
-             "read-ahead dropped before a write) are in the model but inactive for a stream (seekable() is False); "
-             "behaviour when the underlying _read/_write raises (the model mirrors it "
-             "but the C42 stream never raises). Theorems assume _DEFAULT_BUFSIZE >= 1 and that _write accepts at "
+             "streams are ASCII). Universal-newline mode 'U' (CR/CRLF translation, _at_trailing_cr carried across "
+             "calls, newlines attribute): modelled statement by statement in PV/Model/BufFileU.lean on top of the same "
+             "BF state and tied on every run by byte-exact correspondence (incl. _at_trailing_cr and newlines) over "
+             "CR/CRLF/LF-heavy chunked streams and a directed CR-at-chunk-end corpus, with a model-independent oracle "
+             "for whole-line programs (readline()/next/list(f)/readlines: lines == the stream with CRLF/CR translated "
+             "to LF, whatever the chunking); the Lean theorems listed under level are about the non-U code path — U "
+             "mode is tied and oracle-checked, not yet proved. The seekable-file branches added to file.py for C27 "
+             "(flush before read, read-ahead dropped before a write) are in the model but inactive for a stream "
+             "(seekable() is False). Not covered: behaviour when the underlying _read/_write raises (the model mirrors "
+             "it but the C42 stream never raises). Theorems assume _DEFAULT_BUFSIZE >= 1 and that _write accepts at "
              "least one byte per call (a stream accepting 0 bytes makes _write_all spin; modelled as Err.stall). "
              "Trusted: Lean kernel + 3 standard axioms; the correspondence harness and generators; io.BytesIO as "
              "the oracle's reference for read/readline/iteration."),
